@@ -511,8 +511,10 @@ class _ExprMixin:
     def ev(self, node):
         m = getattr(self, "ev_" + type(node).__name__, None)
         if m is None:
-            self.warnings.append("unsupported expression %s" % type(node).__name__)
-            return Op("unsupported:" + type(node).__name__)
+            fr = self.frames[-1] if self.frames else None
+            raise AnalysisError("python construct not modelled by the interpreter: %s expression at %s:%s" % (
+                type(node).__name__, fr.finfo.qual if fr is not None and fr.finfo else (fr.modname if fr else "?"),
+                getattr(node, "lineno", "?")))
         return m(node)
 
     def ev_Constant(self, n):
@@ -1179,8 +1181,10 @@ class _StmtMixin:
     def exec_stmt(self, st):
         m = getattr(self, "st_" + type(st).__name__, None)
         if m is None:
-            self.warnings.append("unsupported statement %s" % type(st).__name__)
-            return
+            fr = self.frames[-1] if self.frames else None
+            raise AnalysisError("python construct not modelled by the interpreter: %s statement at %s:%s" % (
+                type(st).__name__, fr.finfo.qual if fr is not None and fr.finfo else (fr.modname if fr else "?"),
+                getattr(st, "lineno", "?")))
         m(st)
 
     def st_Expr(self, st):
@@ -1473,7 +1477,7 @@ class _StmtMixin:
         return and_(*[c for c in g if c not in known])
 
     def st_Match(self, st):
-        self.warnings.append("match statement not modelled")
+        raise AnalysisError("match statement not modelled by the interpreter (line %s)" % getattr(st, "lineno", "?"))
 
 
 class _LoopMixin:
